@@ -77,7 +77,11 @@ func (logicFamily) Corpus(string) []*hc.Case {
 	p4 := logicParams{Opener: "hystrix", N: 10, Dur: 10 * sec, Pct: 50, Vol: 4, Sleep: sec, Half: 1, Req: 1}
 	e := []logicOp{{K: "circ", Kind: "Opened", T: 0}, run("KTimeout", sec), run("KFailure", 2*sec), run("KTimeout", 2*sec), run("KSuccess", 3*sec), {K: "circ", Kind: "Closed", T: 3 * sec},
 		run("KSuccess", 3*sec), run("KSuccess", 3*sec), run("KSuccess", 3*sec), run("KFailure", 4*sec), {K: "shouldopen", T: 4 * sec}, run("KTimeout", 4*sec), {K: "shouldopen", T: 4 * sec}}
-	return []*hc.Case{logicCase(p, a), logicCase(p, b), logicCase(pc, c), logicCase(p3, d), logicCase(p4, e)}
+	// the closer reconfigured inside its sleep window (same values, then a longer window); the pending timer fires;
+	// probes after the window
+	g := []logicOp{{K: "circ", Kind: "Opened", T: 0}, {K: "allow", T: sec / 2}, {K: "setcloser", A: sec, B: 1, C: 1}, {K: "fire", A: 0}, {K: "allow", T: sec}, {K: "allow", T: sec + 1},
+		{K: "setcloser", A: 3 * sec, B: 1, C: 1}, {K: "fire", A: 1}, {K: "allow", T: 2 * sec}, {K: "allow", T: 2*sec + 1}, {K: "allow", T: 5 * sec}}
+	return []*hc.Case{logicCase(p, a), logicCase(p, b), logicCase(pc, c), logicCase(p3, d), logicCase(p4, e), logicCase(p4, g)}
 }
 
 func (logicFamily) Gen(r *rand.Rand, i int, tier string) *hc.Case {
@@ -113,11 +117,11 @@ func (logicFamily) Gen(r *rand.Rand, i int, tier string) *hc.Case {
 			timers++
 		case x < 84:
 			if timers > 0 {
-				k := timers - 1
 				if r.Intn(4) == 0 {
-					k = r.Intn(timers)
+					ops = append(ops, logicOp{K: "fire", A: int64(r.Intn(timers))})
+				} else {
+					ops = append(ops, logicOp{K: "firelast"}) // resolved to the newest registration when executed
 				}
-				ops = append(ops, logicOp{K: "fire", A: int64(k)})
 			}
 		case x < 88:
 			ops = append(ops, logicOp{K: "setopener", A: hc.Pick(r, int64(0), 1, 29, 50, 99, 100), B: hc.Pick(r, int64(0), 1, 2, 5)})
@@ -125,6 +129,10 @@ func (logicFamily) Gen(r *rand.Rand, i int, tier string) *hc.Case {
 			ops = append(ops, logicOp{K: "setthr", A: hc.Pick(r, int64(0), 1, 2, 4)})
 		case x < 95:
 			ops = append(ops, logicOp{K: "setcloser", A: hc.Pick(r, int64(0), ms, sec, 3*sec), B: hc.Pick(r, int64(0), 1, 2), C: hc.Pick(r, int64(0), 1, 2, 3)})
+			if r.Intn(2) == 0 {
+				// the timer pending at the reconfiguration fires afterwards; probes long after every window in play
+				ops = append(ops, logicOp{K: "firelast"}, logicOp{K: "allow", T: now + p.Sleep + 4*sec}, logicOp{K: "allow", T: now + p.Sleep + 4*sec})
+			}
 		default:
 			ops = append(ops, logicOp{K: "prevent", T: t})
 		}
@@ -141,11 +149,18 @@ func (logicFamily) Exec(c *hc.Case) {
 	type reg struct {
 		d time.Duration
 		f func()
+		t *time.Timer
 	}
 	var regs []reg
+	defer func() {
+		for _, r := range regs {
+			r.t.Stop()
+		}
+	}()
 	after := func(d time.Duration, f func()) *time.Timer {
-		regs = append(regs, reg{d, f})
-		return nil
+		t := hc.LiveTimer() // a timer the library has stopped does not fire
+		regs = append(regs, reg{d, f, t})
+		return t
 	}
 	var opener circuit.ClosedToOpen
 	if p.Opener == "hystrix" {
@@ -273,9 +288,16 @@ func (logicFamily) Exec(c *hc.Case) {
 			if want := succ >= need; got != want {
 				c.Viol = append(c.Viol, hc.Violation{Clause: "C03: it closes exactly when max(1, RequiredConcurrentSuccessful) successes have completed since the opening with no failure or timeout in between", Detail: fmt.Sprintf("ShouldClose=%v with %d consecutive successes, required %d", got, succ, need), AtOp: i})
 			}
-		case "fire":
+		case "fire", "firelast":
+			if o.K == "firelast" {
+				o.K, o.A = "fire", int64(len(regs)-1)
+				if o.A < 0 {
+					o.A = 0
+				}
+				c.Ops[i] = hc.Raw(o)
+			}
 			if int(o.A) < len(regs) {
-				regs[o.A].f()
+				hc.FireTimer(regs[o.A].t, regs[o.A].f)
 				tags["fire"] = true
 			}
 		case "setopener":
